@@ -130,6 +130,7 @@ def explore_cold(run, bound, on_exec, stop=None, max_execs=None, shard=(0, 1)):
     shard_i, shard_n = shard
 
     def children(rec, plen):
+        """-> [(prefix, deviations used by that prefix)]"""
         out = []
         cp, ch = rec["cp"], rec["choices"]
         dev = sum(_cost(cp[j], ch[j]) for j in range(plen) if ch[j] != 0)
@@ -137,8 +138,9 @@ def explore_cold(run, bound, on_exec, stop=None, max_execs=None, shard=(0, 1)):
             if dev > bound:
                 break
             for alt in range(1, cp[i][0]):
-                if dev + _cost(cp[i], alt) <= bound:
-                    out.append(ch[:i] + [alt])
+                c = dev + _cost(cp[i], alt)
+                if c <= bound:
+                    out.append((ch[:i] + [alt], c))
             if ch[i] != 0:
                 dev += _cost(cp[i], ch[i])
         return out
@@ -157,10 +159,22 @@ def explore_cold(run, bound, on_exec, stop=None, max_execs=None, shard=(0, 1)):
                 return None
         return rec
 
-    root = execute([], shard_i == 0)
-    if root is None:
-        return stats
-    stack = children(root, 0)[shard_i::shard_n]
+    # deterministic frontier, as in sched.explore(): the root and (to depth 4) its zero-cost descendants -- which
+    # thread goes first / next when the running one ends -- are executed by every shard and judged by shard 0 only;
+    # the sub-trees below them are dealt round-robin (one zero-cost child alone holds half of all schedules)
+    expand = [([], 0)]
+    frontier = []
+    while expand:
+        prefix, depth = expand.pop(0)
+        rec = execute(prefix, shard_i == 0)
+        if rec is None:
+            return stats
+        for child, cost in children(rec, len(prefix)):
+            if cost == 0 and depth < 4:
+                expand.append((child, depth + 1))
+            else:
+                frontier.append(child)
+    stack = frontier[shard_i::shard_n]
     stack.reverse()
     while stack:
         prefix = stack.pop()
@@ -170,7 +184,7 @@ def explore_cold(run, bound, on_exec, stop=None, max_execs=None, shard=(0, 1)):
         rec = execute(prefix, True)
         if rec is None:
             break
-        kids = children(rec, len(prefix))
+        kids = [c for c, _ in children(rec, len(prefix))]
         kids.reverse()
         stack.extend(kids)
     return stats
